@@ -141,7 +141,7 @@ def classify_exception(case, e):
     if 'Categorical is not ordered' in str(e):
         for nm, c in case['cols'].items():
             cs = case['cons'].get(nm, {})
-            if c['variant'] == 'category' and any(k in cs and cs[k]['value'] is not None
+            if c['variant'].startswith('category') and any(k in cs and cs[k]['value'] is not None
                                                   for k in ('min', 'max', 'sign')):
                 return 'c02-minmax-categorical'
     if 'Cannot convert non-finite values' in str(e) and not case['strict']:
